@@ -8,6 +8,7 @@ from ..flow import guards_at, flatten_guards, SeqFlow, RETURN, NORMAL
 from ..setflow import (set_typed_names, unordered_iterations,
                        class_set_attributes)
 from ..mutate import Mutant, in_func
+from .. import guardspec
 
 ID = 'C07'
 EXPLANATION = (
@@ -379,11 +380,128 @@ def rule_r4(prog, res):
                     'the prefix collision loop does not advance the counter')
 
 
+# ------------------------------------------------------------------- R5
+def rule_r5(prog, res):
+    res.rule('R5', 'the WSDL root copies interface.nsmap only after the '
+             'schema generators (which can still allocate prefixes) ran')
+    c = prog.cls('spyne.interface.wsdl.wsdl11:Wsdl11')
+    f = c.methods.get('build_interface_document')
+    if f is None:
+        raise AnalysisError('Wsdl11.build_interface_document', 'not found')
+    gen = [x for x in calls_in(f.node) if call_name(x) == 'build_schema_nodes']
+    cp = [x for x in calls_in(f.node) if any(
+        k.arg == 'nsmap' and 'nsmap' in unparse(k.value) for k in x.keywords)]
+    res.floor('R5', 'schema generation calls in build_interface_document',
+              len(gen), 1)
+    res.floor('R5', 'root elements created from interface.nsmap', len(cp), 1)
+    if not gen or not cp:
+        return
+    for x in cp:
+        where = '%s:%d' % (f.module.relpath, x.lineno)
+        ok = all(g.lineno < x.lineno for g in gen) and not any(
+            guards_at(g, stop=f.node) for g in gen)
+        res.ob('R5', where, 'build_interface_document: %s at line %d, '
+               'build_schema_nodes() at line(s) %s' % (
+                   unparse(x)[:50], x.lineno, [g.lineno for g in gen]),
+               'ok' if ok else 'VIOLATED', nontrivial=True)
+        if not ok:
+            res.finding('R5', 'Wsdl11.build_interface_document|nsmap-before-'
+                        'schema', where, 'the root element copies '
+                        'interface.nsmap (lxml copies nsmap at creation) '
+                        'before build_schema_nodes() has run: prefixes '
+                        'allocated while the schemas are generated are '
+                        'missing from the root, lxml invents ns0/ns1 '
+                        'declarations, and QName references written as text '
+                        '(type="s0:Foo") use prefixes the document never '
+                        'declares')
+
+
+# ------------------------------------------------------------------- R6
+def rule_r6(prog, res):
+    res.rule('R6', 'fault messages are defined and referenced in the same '
+             'namespace')
+    w = prog.cls('spyne.interface.wsdl.wsdl11:Wsdl11')
+    refs = []
+    for nm, f in sorted(w.methods.items()):
+        for x in calls_in(f.node):
+            if call_name(x) == 'set' and len(x.args) == 2 and isinstance(
+                    x.args[0], ast.Constant) and x.args[0].value == 'message':
+                t = unparse(x.args[1])
+                for a in ancestors(x):
+                    if isinstance(a, ast.For) and 'faults' in unparse(a.iter):
+                        refs.append((f, x, t))
+                        break
+    res.floor('R6', 'fault message references in the WSDL generator',
+              len(refs), 1)
+    own_prefix = [r for r in refs if 'get_namespace_prefix' in r[2] and
+                  'pref_tns' not in r[2]]
+    itf = prog.cls('spyne.interface._base:Interface')
+    am = itf.methods.get('add_method')
+    if am is None:
+        raise AnalysisError('Interface.add_method', 'not found')
+    forced = []
+    for a in walk_no_defs(am.node):
+        if isinstance(a, ast.Assign) and any(
+                isinstance(t, ast.Attribute) and t.attr == '__namespace__'
+                for t in a.targets) and 'get_tns' in unparse(a.value):
+            for l in ancestors(a):
+                if isinstance(l, ast.For) and 'faults' in unparse(l.iter):
+                    forced.append(a)
+                    break
+    for f, x, t in refs:
+        where = '%s:%d' % (f.module.relpath, x.lineno)
+        needs = (f, x, t) in own_prefix
+        ok = not needs or bool(forced)
+        res.ob('R6', where, '%s: fault message reference %s; messages are '
+               'defined in the target namespace; add_method %s' % (
+                   f.qualname, t[:60], 'forces faults into tns' if forced
+                   else 'does not force faults into tns'),
+               'ok' if ok else 'VIOLATED', nontrivial=True)
+        if not ok:
+            res.finding('R6', 'Interface.add_method|fault-namespace', am.where,
+                        '%s refers to the fault message with the prefix of '
+                        'the fault\'s own namespace, but wsdl:message '
+                        'elements are defined in the target namespace and '
+                        'Interface.add_method no longer moves faults there: '
+                        'for a fault class declared in another namespace the '
+                        'message QName does not resolve' % f.qualname)
+
+
+# ------------------------------------------------------------------- R7
+def rule_r7(prog, res):
+    res.rule('R7', 'every non-auxiliary method gets its message elements, '
+             'whatever its body style')
+    c = prog.cls('spyne.interface.xml_schema._base:XmlSchema')
+    f = c.methods.get('add_missing_elements_for_methods')
+    if f is None:
+        raise AnalysisError('XmlSchema.add_missing_elements_for_methods',
+                            'not found')
+    ys = [n for n in ast.walk(f.node) if isinstance(n, ast.Yield)]
+    if not ys:
+        # direct loop form: look for the loop over public_methods
+        ys = [n for n in ast.walk(f.node) if isinstance(n, ast.For) and
+              'missing_methods' in unparse(n.iter)]
+    res.floor('R7', 'method selection sites', len(ys), 1)
+    for y in ys:
+        inner = y
+        while parent(inner) is not None and not isinstance(
+                parent(inner), (ast.FunctionDef,)):
+            inner = parent(inner)
+        stop = parent(inner) if parent(inner) is not None else f.node
+        guardspec.check(res, 'R7', f, y, 'the selection of methods that get '
+                        'schema elements', allowed=[('_.aux is None', True)],
+                        key='XmlSchema.add_missing_elements_for_methods|'
+                        'selection')
+
+
 def run(prog, res, tier):
     res.run_rule(rule_r1, prog, res, tier)
     res.run_rule(rule_r2, prog, res)
     res.run_rule(rule_r3, prog, res)
     res.run_rule(rule_r4, prog, res)
+    res.run_rule(rule_r5, prog, res)
+    res.run_rule(rule_r6, prog, res)
+    res.run_rule(rule_r7, prog, res)
 
 
 _S = 'spyne/interface/xml_schema/_base.py'
@@ -392,6 +510,31 @@ _I = 'spyne/interface/_base.py'
 _T = 'spyne/util/toposort.py'
 
 MUTANTS = [
+    Mutant('root-before-schema-nodes', 'R5', 'fire', _W,
+           in_func('Wsdl11.build_interface_document',
+                   r"(        self\.build_schema_nodes\(\)\n)(.*?)"
+                   r"(        # create types node\n)",
+                   lambda m_: m_.group(2) + m_.group(3) + m_.group(1),
+                   regex=True), 'nsmap-before-schema'),
+    Mutant('schema-nodes-after-url', 'R5', 'benign', _W,
+           in_func('Wsdl11.build_interface_document',
+                   r"(        self\.build_schema_nodes\(\)\n\n)"
+                   r"(        self\.url = REGEX_WSDL\.sub\('', url\)\n)",
+                   lambda m_: m_.group(2) + "\n" + m_.group(1),
+                   regex=True), None),
+    Mutant('fault-namespace-not-forced', 'R6', 'fire', _I,
+           in_func('Interface.add_method',
+                   "            fault.__namespace__ = self.get_tns()\n", ""),
+           'fault-namespace'),
+    Mutant('missing-elements-bare-only', 'R7', 'fire', _S,
+           in_func('XmlSchema.add_missing_elements_for_methods',
+                   "if method.aux is None:",
+                   "if method.aux is None and method.body_style == 'bare':"),
+           'extra-guard'),
+    Mutant('missing-elements-not-aux', 'R7', 'benign', _S,
+           in_func('XmlSchema.add_missing_elements_for_methods',
+                   "if method.aux is None:",
+                   "if not (method.aux is not None):"), None),
     Mutant('imports-unsorted', 'R1', 'fire', _S,
            in_func('XmlSchema.build_schema_nodes',
                    r"for namespace in sorted\(\s*self\.interface\.imports\["
